@@ -21,6 +21,8 @@ SCALE = 16              # logged length = real length * SCALE; the model's 16 is
 ITER_CAP = 200          # iterators are cut after this many items (cyclic graphs)
 CALL_CPU_LIMIT = 20.0   # CPU seconds for one library call: a legitimate call on <= 30 nodes needs milliseconds
 
+NEEDS_NONSEED = ("RerootAtEdge", "ToOutgroupPosition", "CollapseEdge", "InsertChild", "RemoveChild", "ReAddChild", "Regraft")
+NEEDS_INTERNAL = ("ReseedAt", "RerootAtNode", "CollapseClade", "NewChild", "InsertNewChild", "RotateChildren")
 REORIENT = ("ReseedAt", "RerootAtNode", "RerootAtEdge", "RerootAtMidpoint", "ToOutgroupPosition",
             "Ladderize", "Reorder", "RandomlyReorient", "RandomlyRotate")
 TAXON_LABELS = ["T%02d" % (i + 1) for i in range(40)]
@@ -239,6 +241,11 @@ class World(object):
         if "x" in a:
             nd, ev["x"] = self.node_of_key(a["x"])
             if nd is None:
+                return None
+            # documented preconditions of the call (a replayed model path may have diverged on the real tree)
+            if action in NEEDS_NONSEED and pre["par"][ev["x"] - 1] == 0:
+                return None
+            if action in NEEDS_INTERNAL and not pre["kids"][ev["x"] - 1]:
                 return None
             par = nd._parent_node
             if par is not None:
